@@ -58,6 +58,7 @@ fn main() {
     runner::init_process(verbose);
     let code = match cmd {
         "run" => cmd_run(&args),
+        "crash" => cmd_crash(&args),
         "plan" => cmd_plan(&args),
         "replay" => cmd_replay(&args, verbose),
         "minimize" => cmd_minimize(&args),
@@ -74,7 +75,11 @@ fn cmd_plan(args: &[String]) -> i32 {
     let prop = arg_val(args, "--prop").unwrap_or_else(|| "C03".into());
     let master: u64 = arg_val(args, "--seed").and_then(|s| s.parse().ok()).unwrap_or(1);
     let i: u64 = arg_val(args, "--index").and_then(|s| s.parse().ok()).unwrap_or(0);
-    let plan = scen::gen(&prop, scen::run_seed(master, &prop, i));
+    let (hist, crash_at) = if prop == "C08" { (i / 100_000, i % 100_000) } else { (i, 0) };
+    let mut plan = scen::gen(&prop, scen::run_seed(master, &prop, hist));
+    if crash_at > 0 {
+        plan.flags.push(format!("crash_at={}", crash_at));
+    }
     println!("{}", serde_json::to_string_pretty(&plan).unwrap());
     0
 }
@@ -212,4 +217,90 @@ fn cmd_minimize(args: &[String]) -> i32 {
             3
         }
     }
+}
+
+/// `vsim crash --prop C08 --seed S --from A --count N [--all]`
+/// For each generated history: a crash-free pass counts the write boundaries, then the same
+/// plan is re-executed with a crash before write k for every (or a stratified sample of) k.
+fn cmd_crash(args: &[String]) -> i32 {
+    let prop = arg_val(args, "--prop").unwrap_or_else(|| "C08".into());
+    let master: u64 = arg_val(args, "--seed").and_then(|s| s.parse().ok()).unwrap_or(1);
+    let from: u64 = arg_val(args, "--from").and_then(|s| s.parse().ok()).unwrap_or(0);
+    let count: u64 = arg_val(args, "--count").and_then(|s| s.parse().ok()).unwrap_or(1);
+    let step: u64 = arg_val(args, "--step").and_then(|s| s.parse().ok()).unwrap_or(1);
+    let all = args.iter().any(|a| a == "--all");
+    let sample: u64 = arg_val(args, "--sample").and_then(|s| s.parse().ok()).unwrap_or(14);
+    let deadline = arg_val(args, "--wall")
+        .and_then(|s| s.parse::<f64>().ok())
+        .map(|s| std::time::Instant::now() + std::time::Duration::from_secs_f64(s));
+    let out = std::io::stdout();
+    let mut cov: HashSet<u64> = HashSet::new();
+    let mut exit = 0;
+    let mut done = 0u64;
+    for k in 0..count {
+        if let Some(d) = deadline {
+            if std::time::Instant::now() > d {
+                break;
+            }
+        }
+        let i = from + k * step;
+        let plan = scen::gen(&prop, scen::run_seed(master, &prop, i));
+        let base = runner::execute(&plan, false);
+        if base.harness_error.is_some() {
+            exit = 2;
+        }
+        let w = base.stats.get("writes_total").cloned().unwrap_or(0);
+        // which boundaries: all, or every distinct site once plus a seeded stratified sample
+        let mut ks: Vec<u64> = Vec::new();
+        if all || w <= sample {
+            ks = (1..=w).collect();
+        } else {
+            let mut seen = std::collections::HashSet::new();
+            for (idx, site) in base.write_sites.iter().enumerate() {
+                // first occurrence of every (site, previous site) pair
+                let prev = if idx == 0 { "" } else { base.write_sites[idx - 1].as_str() };
+                if seen.insert((site.clone(), prev.to_string())) {
+                    ks.push(idx as u64 + 1);
+                }
+            }
+            let mut rng = entropy::Rng::new(entropy::mix(&[plan.seed, 0xc8]));
+            while (ks.len() as u64) < sample.max(ks.len() as u64).min(w) && (ks.len() as u64) < sample {
+                let c = rng.range(1, w);
+                if !ks.contains(&c) {
+                    ks.push(c);
+                }
+            }
+            ks.sort();
+            ks.dedup();
+        }
+        for kk in ks {
+            if let Some(d) = deadline {
+                if std::time::Instant::now() > d {
+                    break;
+                }
+            }
+            let mut p = plan.clone();
+            p.flags.push(format!("crash_at={}", kk));
+            let o = runner::execute(&p, false);
+            cov.extend(o.coverage.iter().cloned());
+            let mut v = serde_json::to_value(&o).unwrap();
+            v["index"] = serde_json::json!(i * 100_000 + kk);
+            v["history"] = serde_json::json!(i);
+            v["crash_at"] = serde_json::json!(kk);
+            v["writes_in_history"] = serde_json::json!(w);
+            if o.harness_error.is_some() {
+                exit = 2;
+            }
+            let mut l = out.lock();
+            let _ = writeln!(l, "{}", v);
+            done += 1;
+        }
+    }
+    let mut covv: Vec<u64> = cov.into_iter().collect();
+    covv.sort();
+    println!(
+        "{}",
+        serde_json::json!({"summary": true, "runs": done, "coverage": covv})
+    );
+    exit
 }
